@@ -113,6 +113,9 @@ pub fn merge_stats(a: &mut RunStats, b: &RunStats) {
     a.restart_after_exit += b.restart_after_exit;
     a.forced_start += b.forced_start;
     a.clock_jumps += b.clock_jumps;
+    for (k, v) in &b.fd_limit_scenarios {
+        *a.fd_limit_scenarios.entry(k.clone()).or_insert(0) += v;
+    }
     a.cpu_limited_threads += b.cpu_limited_threads;
     a.disk_fault_points += b.disk_fault_points;
     a.fs_write_fault_scenarios += b.fs_write_fault_scenarios;
@@ -173,6 +176,10 @@ pub fn work_main(a: &WorkArgs) {
     let g = GenCtx::new(&pool, &refs);
     // (raw clock: the worker's ordinary clocks jump when a scenario says so)
     let t0 = crate::procs::raw_now_ns();
+    // a few descriptors in reserve: a tree that leaks descriptors until open() fails must still
+    // leave the worker able to write what it saw
+    crate::procs::reserve_fds(8);
+    let fd_limit = crate::procs::fd_limit();
     let mut out = WorkerOut::default();
     out.stats.yield_hits = vec![0; N_SITES];
     out.stats.yield_preempts = vec![0; N_SITES];
@@ -217,6 +224,7 @@ pub fn work_main(a: &WorkArgs) {
             }
         }
         merge_stats(&mut out.stats, &r.stats);
+        *out.stats.fd_limit_scenarios.entry(fd_limit.clone()).or_insert(0) += 1;
         if out.samples.len() < 2 && sc.threads.len() >= 2 && r.stats.warm_hit_ops >= 1 {
             out.samples.push(sample_text(&sc, &r.decisions));
         }
@@ -240,7 +248,9 @@ pub fn work_main(a: &WorkArgs) {
                     note: format!("batch index {} of worker range {}..{}", i, a.from, a.to),
                     origin: Some((a.from, i, a.no_yield)),
                 };
+                crate::procs::release_reserved_fds();
                 save(&path, &f);
+                crate::procs::reserve_fds(8);
                 out.candidates.push(path);
             }
         }
@@ -255,6 +265,7 @@ pub fn work_main(a: &WorkArgs) {
     out.states = states.into_iter().collect();
     out.transitions = transitions.into_iter().collect();
     out.wall_s = (crate::procs::raw_now_ns() - t0) as f64 / 1e9;
+    crate::procs::release_reserved_fds();
     std::fs::write(&a.out_path, serde_json::to_string(&out).unwrap()).expect("write worker out");
     if out.incomplete_from.is_some() {
         // stuck threads cannot be joined: leave without running destructors
@@ -362,7 +373,18 @@ pub struct ViolationReport {
 }
 
 fn spawn_worker(b: &BatchArgs, pool_path: &str, refs_path: &str, from: u64, to: u64, tag: &str, no_yield: bool) -> std::process::Child {
-    let mut c = Command::new(self_exe());
+    // Resource limits are tuning knobs too (swarm): the worker's descriptor limit depends on where
+    // its range starts - 256, 1024 (the usual default), 4096 or whatever the machine gives. A tree
+    // that leaks a descriptor per call or per thread reaches a small limit within one worker.
+    let nofile = match derive(b.verif_seed, 0x6e6f_6669 ^ from) % 4 {
+        0 => "256",
+        1 => "1024",
+        2 => "4096",
+        _ => "",
+    };
+    let script = if nofile.is_empty() { "exec \"$0\" \"$@\"".to_string() } else { format!("ulimit -n {} 2>/dev/null; exec \"$0\" \"$@\"", nofile) };
+    let mut c = Command::new("sh");
+    c.arg("-c").arg(script).arg(self_exe());
     c.arg("work")
         .args(["--pool", pool_path, "--refs", refs_path])
         .args(["--seed", &b.verif_seed.to_string()])
